@@ -27,12 +27,13 @@ static void oput (const char *fmt, ...)
 static void osep (void) { oput (" ; "); }
 
 /* ---------- parsing ---------- */
-typedef struct { char op; int n; unsigned long a[4]; } opr_t;
+typedef struct { char op; int n; unsigned long a[6]; } opr_t;
 static int parse_op (char *tok, opr_t * o)
 {
   char *p = tok;
   o->op = *p++; o->n = 0;
-  while (*p == ',' && o->n < 4) { ++p; o->a[o->n++] = strtoul (p, &p, 16); }
+  while (*p == ',' && o->n < 6) { ++p; o->a[o->n++] = strtoul (p, &p, 16); }
+  { int z_; for (z_ = o->n; z_ < 6; ++z_) o->a[z_] = 0; }
   return 1;
 }
 
@@ -501,10 +502,12 @@ static void avl_visit_fn (void *item, void *data)
   if (g_print) oput (" %x.%x", (unsigned) it->key, it->tag);
 }
 /* structural self-check of the real tree: stored counts, parent pointers, search order, prev/next against in-order */
+static long g_chk_budget;
 static unsigned avl_chk (avl_tree_t * t, avl_node_t * n, avl_node_t * parent, avl_node_t ** last, int *ok, int *height)
 {
   unsigned cl, cr; int hl = 0, hr = 0;
   if (n == NULL) { *height = 0; return 0; }
+  if (--g_chk_budget < 0) { *ok = 0; *height = 0; return 0; }      /* shared subtrees or a cycle: not a tree */
   if (n->parent != parent) *ok = 0;
   cl = avl_chk (t, n->left, n, last, ok, &hl);
   if (n->prev != *last) *ok = 0;
@@ -518,10 +521,19 @@ static unsigned avl_chk (avl_tree_t * t, avl_node_t * n, avl_node_t * parent, av
   return cl + cr + 1;
 }
 
+/* avl_clear_tree forgets the nodes without freeing them: the caller collects them first (head/next list) and frees them himself */
+static void avl_clear_and_free_nodes (avl_tree_t * tree)
+{
+  avl_node_t *node, *next, *first = tree->head;
+  avl_clear_tree (tree);
+  for (node = first; node != NULL; node = next) { next = node->next; SC_FREE (node); }
+}
+
 static void run_avl (unsigned long *par, int npar, char **ops, int nops)
 {
   int i, withfree = (int) par[1], expect_freed = 0;
   aitem_t *arena = SC_ALLOC (aitem_t, nops + 1);
+  avl_node_t **det = SC_ALLOC (avl_node_t *, nops + 1); int ndet = 0;
   avl_tree_t *tree;
   g_avl_mode = (int) par[0]; g_avl_freed = 0;
   tree = avl_alloc_tree (avl_cmp_fn, withfree ? avl_free_fn : NULL);
@@ -558,7 +570,7 @@ static void run_avl (unsigned long *par, int npar, char **ops, int nops)
       break;
     case 'c': {
       int ok = 1, h = 0; avl_node_t *last = NULL;
-      unsigned sz = avl_chk (tree, tree->top, NULL, &last, &ok, &h);
+      unsigned sz = (g_chk_budget = 2L * nops + 16, avl_chk (tree, tree->top, NULL, &last, &ok, &h));
       if (tree->tail != last) ok = 0;
       if (tree->top == NULL && tree->head != NULL) ok = 0;
       oput ("c %x %d | %x %x", avl_count (tree), ok && sz == avl_count (tree), tree->top ? (unsigned) ((aitem_t *) tree->top->item)->key : 0u, h);
@@ -587,10 +599,29 @@ static void run_avl (unsigned long *par, int npar, char **ops, int nops)
       if (tree->tail) { it = (aitem_t *) tree->tail->item; oput (" %x.%x", (unsigned) it->key, it->tag); } else oput (" -");
       break;
     case 'z': avl_free_nodes (tree); oput ("z %x", avl_count (tree)); break;
+    case 'y': avl_clear_and_free_nodes (tree); oput ("y %x", avl_count (tree)); break;
+    case 'U':                      /* avl_unlink_node: the node object stays with the caller, freeitem is not called */
+      node = avl_search (tree, k);
+      if (node != NULL) { it = (aitem_t *) node->item; avl_unlink_node (tree, node); det[ndet++] = node; oput ("U 1 %x.%x %x", (unsigned) it->key, it->tag, avl_count (tree)); }
+      else oput ("U 0 %x", avl_count (tree));
+      break;
+    case 'R':                      /* the kept object a[0] gets the new item (key a[1], tag a[2]) and is inserted again */
+      if (o.a[0] >= (unsigned long) ndet) { oput ("R -"); break; }
+      node = det[o.a[0]];
+      k->key = (int) o.a[1]; k->tag = (unsigned) o.a[2];
+      if (o.a[3]) avl_init_node (node, k); else node->item = k;
+      if (avl_insert_node (tree, node) != NULL) {
+        memmove (det + o.a[0], det + o.a[0] + 1, sizeof (avl_node_t *) * (size_t) (ndet - (int) o.a[0] - 1)); --ndet;
+        oput ("R 1 %x", avl_count (tree));
+      }
+      else oput ("R 0 %x", avl_count (tree));
+      break;
     default: oput ("UNKNOWN_OP");
     }
   }
   (void) expect_freed;
+  while (ndet > 0) SC_FREE (det[--ndet]);
+  SC_FREE (det);
   avl_free_tree (tree);
   osep (); oput ("Z %x", withfree ? g_avl_freed : 0);
   SC_FREE (arena);
@@ -601,6 +632,7 @@ static void run_aseq (unsigned long *par, int npar, char **ops, int nops)
 {
   int i, withfree = (int) par[0];
   aitem_t *arena = SC_ALLOC (aitem_t, nops + 1);
+  avl_node_t **det = SC_ALLOC (avl_node_t *, nops + 1); int ndet = 0;
   avl_tree_t *tree;
   g_avl_freed = 0;
   tree = avl_alloc_tree (NULL, withfree ? avl_free_fn : NULL);     /* no compare function: never called on these paths */
@@ -612,7 +644,8 @@ static void run_aseq (unsigned long *par, int npar, char **ops, int nops)
     switch (o.op) {
     case 'P': case 'N':
       node = avl_at (tree, (unsigned) o.a[0]);
-      nn = avl_init_node (SC_ALLOC (avl_node_t, 1), k);
+      if (o.a[3]) { nn = SC_ALLOC (avl_node_t, 1); memset (nn, 0x5a, sizeof (avl_node_t)); nn->item = k; }   /* filled in by hand: stale everything */
+      else nn = avl_init_node (SC_ALLOC (avl_node_t, 1), k);
       res = o.op == 'P' ? avl_insert_before (tree, node, nn) : avl_insert_after (tree, node, nn);
       oput ("%c %x", o.op, avl_count (tree));
       if (res != nn || nn->item != (void *) k) oput (" WRONG_NODE");
@@ -632,7 +665,7 @@ static void run_aseq (unsigned long *par, int npar, char **ops, int nops)
       break;
     case 'c': {
       int ok = 1, h = 0; avl_node_t *last = NULL;
-      unsigned sz = avl_chk (tree, tree->top, NULL, &last, &ok, &h);
+      unsigned sz = (g_chk_budget = 2L * nops + 16, avl_chk (tree, tree->top, NULL, &last, &ok, &h));
       if (tree->tail != last) ok = 0;
       if (tree->top == NULL && tree->head != NULL) ok = 0;
       oput ("c %x %d | %x %x", avl_count (tree), ok && sz == avl_count (tree), tree->top ? (unsigned) ((aitem_t *) tree->top->item)->key : 0u, h);
@@ -656,9 +689,28 @@ static void run_aseq (unsigned long *par, int npar, char **ops, int nops)
       if (tree->tail) { it = (aitem_t *) tree->tail->item; oput (" %x.%x", (unsigned) it->key, it->tag); } else oput (" -");
       break;
     case 'z': avl_free_nodes (tree); oput ("z %x", avl_count (tree)); break;
+    case 'y': avl_clear_and_free_nodes (tree); oput ("y %x", avl_count (tree)); break;
+    case 'K':                      /* avl_unlink_node (avl_at (u)): the object (with its left / right / count as they are) stays with the caller */
+      node = avl_at (tree, (unsigned) o.a[0]);
+      if (node != NULL) { it = (aitem_t *) node->item; avl_unlink_node (tree, node); det[ndet++] = node; oput ("K 1 %x.%x %x", (unsigned) it->key, it->tag, avl_count (tree)); }
+      else oput ("K 0 %x", avl_count (tree));
+      break;
+    case 'Q': case 'W':            /* kept object a[1] gets the item (a[2], a[3]) and is linked before / after avl_at (a[0]) */
+      if (o.a[1] >= (unsigned long) ndet) { oput ("%c -", o.op); break; }
+      nn = det[o.a[1]];
+      memmove (det + o.a[1], det + o.a[1] + 1, sizeof (avl_node_t *) * (size_t) (ndet - (int) o.a[1] - 1)); --ndet;
+      k->key = (int) o.a[2]; k->tag = (unsigned) o.a[3];
+      if (o.a[4]) avl_init_node (nn, k); else nn->item = k;
+      node = avl_at (tree, (unsigned) o.a[0]);
+      res = o.op == 'Q' ? avl_insert_before (tree, node, nn) : avl_insert_after (tree, node, nn);
+      oput ("%c %x", o.op, avl_count (tree));
+      if (res != nn) oput (" WRONG_NODE");
+      break;
     default: oput ("UNKNOWN_OP");
     }
   }
+  while (ndet > 0) SC_FREE (det[--ndet]);
+  SC_FREE (det);
   avl_free_tree (tree);
   osep (); oput ("Z %x", withfree ? g_avl_freed : 0);
   SC_FREE (arena);
